@@ -9,7 +9,7 @@ parameters.  Which value reaches which parameter for arbitrary signatures is NOT
 """
 import ast
 
-from ..model import AnalysisError, src, callee_name, dotted, walk_local, calls_in, FUNC, names_in
+from ..model import AnalysisError, src, callee_name, dotted, walk_local, calls_in, FUNC, names_in, pos, is_const
 from ..flow import Sem, path_conditions, split_conj, atoms_at, count_paths
 from ..common import resolve_single_assign, in_loop, ancestors
 from ..selftest import Seed
@@ -172,9 +172,19 @@ def _r2_r3(ctx, repo):
         e = argl.elts[0].value if isinstance(argl, ast.List) and len(argl.elts) == 1 and isinstance(argl.elts[0], ast.Starred) else argl      # [*xs] or xs
         if isinstance(e, ast.Name):
             defs = [n for n in walk_local(f.node) if isinstance(n, ast.Assign) and any(isinstance(t, ast.Name) and t.id == e.id for t in n.targets)]
-            if defs and len({src(n.value) for n in defs}) == 1:
-                e = defs[0].value
-        ok = isinstance(e, ast.ListComp) and isinstance(e.generators[0].iter, ast.Name) and e.generators[0].iter.id == vararg and not e.generators[0].ifs
+            if defs:
+                e = [n.value for n in defs]          # every definition of the list has to be a faithful copy of the caller's arguments
+        def _iter_source(x):
+            """the collection a list-building expression walks once, unfiltered: [.. for a in xs] / list(.. for a in xs) / list(xs) / [*xs]"""
+            if isinstance(x, (ast.ListComp, ast.GeneratorExp)) and len(x.generators) == 1 and not x.generators[0].ifs:
+                return x.generators[0].iter
+            if isinstance(x, ast.Call) and callee_name(x) in ("list", "tuple") and len(x.args) == 1:
+                return _iter_source(x.args[0]) if isinstance(x.args[0], (ast.ListComp, ast.GeneratorExp, ast.Call)) else x.args[0]
+            if isinstance(x, ast.List) and len(x.elts) == 1 and isinstance(x.elts[0], ast.Starred):
+                return _iter_source(x.elts[0].value) if isinstance(x.elts[0].value, (ast.ListComp, ast.GeneratorExp, ast.Call)) else x.elts[0].value
+            return None
+        its_ = [_iter_source(x) for x in (e if isinstance(e, list) else [e])]
+        ok = bool(its_) and all(isinstance(it_, ast.Name) and it_.id == vararg for it_ in its_)
         ctx.ob("C09-R2", f.fq, "every caller argument is forwarded, in order", ok, node=c, construct="arguments forwarded in order")
     # ---- R3
     ctx.instance("C09-R3", f.fq)
@@ -249,18 +259,47 @@ def _r2_r3(ctx, repo):
     ctx.ob("C09-R3", init.fq, "_sym is a plain attribute, not a lazily computed property", not props, node=init.node, construct="_sym is not lazy")
     if in_init:
         v = in_init[0]._parent.value
-        ok = "sym" in names_in(v) and any(isinstance(c, ast.Call) and callee_name(c) == "_find_symbol" for c in ast.walk(v))
+        store_stmt = in_init[0]._parent
+        is_search = lambda e: any(isinstance(c, ast.Call) and callee_name(c) == "_find_symbol" for c in ast.walk(e))
+
+        def alternatives(e, conds=()):
+            """the values the stored expression can take, each with the (test, polarity) facts under which it is the one taken"""
+            if isinstance(e, ast.IfExp):
+                return alternatives(e.body, conds + ((e.test, True),)) + alternatives(e.orelse, conds + ((e.test, False),))
+            if isinstance(e, ast.BoolOp) and isinstance(e.op, ast.Or):
+                out, c = [], conds
+                for x in e.values:
+                    out += alternatives(x, c)
+                    c = c + ((x, False),)
+                return out
+            if isinstance(e, ast.Name):
+                defs = [d for d in walk_local(init.node) if isinstance(d, ast.Assign) and len(d.targets) == 1 and isinstance(d.targets[0], ast.Name) and d.targets[0].id == e.id
+                        and pos(d) < pos(store_stmt)]
+                if defs:
+                    out = [] if e.id not in init.params() and all(path_conditions(d, init.node) == [] for d in defs[-1:]) else [(e, conds)]
+                    for d in defs:
+                        if e.id in names_in(d.value) and not is_search(d.value) and not isinstance(d.value, (ast.IfExp, ast.BoolOp)):
+                            out.append((d.value, conds))
+                        else:
+                            out += alternatives(d.value, conds + tuple(path_conditions(d, init.node)))
+                    return out
+            return [(e, conds)]
+        alts_v = alternatives(v)
+        symp = next((p for p in init.params() if p not in ("self", "fn", "klong") and any(isinstance(a, ast.Name) and a.id == p for a, _c in alts_v)), None)
+        ok = symp is not None and any(is_search(a) for a, _c in alts_v)
         ctx.ob("C09-R3", init.fq, "the symbol is the one given by the creator, else the one the function is bound to now", ok, node=in_init[0]._parent, construct="_sym = sym or search")
         # the given name has priority over the identity search (a function bound under two names keeps the name it was read through)
-        symp = next((p for p in init.params() if p not in ("self",) and p in names_in(v) and p != "fn"), None)
-        is_search = lambda e: any(isinstance(c, ast.Call) and callee_name(c) == "_find_symbol" for c in ast.walk(e))
-        pri = False
-        if isinstance(v, ast.IfExp):
-            pri = isinstance(v.body, ast.Name) and v.body.id == symp and is_search(v.orelse) and not is_search(v.test) and not is_search(v.body)
-            pri = pri or (isinstance(v.orelse, ast.Name) and v.orelse.id == symp and is_search(v.body) and isinstance(v.test, ast.Compare) and
-                          isinstance(v.test.ops[0], ast.Is) and src(v.test.left) == symp)          # `search if sym is None else sym`
-        elif isinstance(v, ast.BoolOp) and isinstance(v.op, ast.Or):
-            pri = isinstance(v.values[0], ast.Name) and v.values[0].id == symp and all(is_search(x) for x in v.values[1:])
+
+        def says_absent(t, pol):
+            """the fact (t is pol) means the creator gave no symbol"""
+            for a, ap in split_conj(t, pol):
+                if isinstance(a, ast.Name) and a.id == symp and ap is False:
+                    return True
+                if isinstance(a, ast.Compare) and len(a.ops) == 1 and isinstance(a.left, ast.Name) and a.left.id == symp and is_const(a.comparators[0], None):
+                    if (isinstance(a.ops[0], ast.Is) and ap is True) or (isinstance(a.ops[0], ast.IsNot) and ap is False):
+                        return True
+            return False
+        pri = ok and all(any(says_absent(t, p_) for t, p_ in c) for a, c in alts_v if is_search(a)) and not any(is_search(t) for _a, c in alts_v for t, _p in c)
         ctx.ob("C09-R3", init.fq, "the name given by the creator has priority over the identity search", pri or not ok, node=in_init[0]._parent, construct="given symbol has priority",
                msg="the wrapper prefers the first symbol bound to the same function object over the name it was read through: with two names bound to one function (g::f) klong['g'] follows later redefinitions of f, not of g")
 
@@ -363,6 +402,27 @@ def _r4(ctx, repo):
            msg="set_context_var converts the value before storing it: klong[name] no longer reads back what was stored")
     stores = [n for n in walk_local(scv.node) if isinstance(n, ast.Assign) and any(isinstance(t, ast.Subscript) and isinstance(t.value, ast.Name) and t.value.id == dparam for t in n.targets)]
     ok = len(stores) == 1 and isinstance(stores[0].value, ast.Name) and stores[0].value.id == vparam and not [t for t, _p in path_conditions(stores[0], scv.node) if not isinstance(getattr(t, "_parent", None), ast.Assert)]
+    if not ok and stores:
+        # the same thing written with one store per branch: every store puts either the value as given or the wrapper built from it,
+        # and every normal path through the function has made a store
+        def _stored_ok(v_):
+            if isinstance(v_, ast.Name) and v_.id == vparam:
+                return True
+            return isinstance(v_, ast.Call) and callee_name(v_) == "KGCall" and any(w in list(ast.walk(v_)) or (
+                isinstance(a_, ast.Name) and any(isinstance(d_, ast.Assign) and d_.value in wraps and any(isinstance(t_, ast.Name) and t_.id == a_.id for t_ in d_.targets)
+                                                 for d_ in walk_local(scv.node))) for w in wraps for a_ in v_.args[:1])
+
+        class _Stored(Sem):
+            base_exc_escapes = False
+
+            def join2(self, a, b):
+                return a and b
+
+            def transfer(self, st, state):
+                return state or st in stores
+        from ..flow import Sem as _S
+        exits = _Stored().run(scv.node, False)
+        ok = all(_stored_ok(s_.value) for s_ in stores) and all(e_.state for e_ in exits if e_.kind == "return") and any(e_.kind == "return" for e_ in exits)
     ctx.ob("C09-R4", scv.fq, "the value is stored unconditionally under the given symbol", ok, node=scv.node, construct="d[sym] = v unconditional")
     # wrapped callable: KGCall(KGLambda(v), args=None, arity=<its arity>)
     for n in rebinds:
